@@ -105,10 +105,13 @@ PROPS = {
 }
 
 
-def tier_universes(tier, name, corpus):
-    # quick: every program at U=2, the cheapest also at U=3; thorough: everything at U=2 and U=3
+QUICK_U3 = {"C04": ("poset", "diag", "tri", "func", "twotypes", "sibling")}
+
+
+def tier_universes(tier, name, corpus, prop=None):
+    # quick: every program at U=2, a few cheap kernels also at U=3 (C04); thorough: everything at U=2 and U=3
     if tier == "quick":
-        return [2]
+        return [2, 3] if name in QUICK_U3.get(prop, ()) else [2]
     return [2, 3]
 
 
@@ -140,13 +143,14 @@ def main():
         if cfg.get("only_enum") and not L.enum_types(su, sch):
             continue
         schemas[name] = (su, sch)
-        for U in ([2] if pinfo.get("kind") == "repo" else tier_universes(tier, name, corpus)):
+        for U in ([2] if pinfo.get("kind") == "repo" else tier_universes(tier, name, corpus, prop)):
             for lname, _ in L.all_lemmas(su):
                 if lname == "uf" and name != sorted(corpus.programs)[0]:
                     continue          # program independent: once is enough
                 if cfg["lemmas"](lname):
                     tasks.append({"program": name, "rs": pinfo["rs"], "eql": pinfo["eql"], "U": U, "lemma": lname,
-                                  "classes": cfg["classes"], "solver": solver, "timeout": timeout})
+                                  "classes": cfg["classes"], "solver": solver, "timeout": timeout,
+                                  "optional": tier == "quick" and U == 3})      # the quick tier's U = 3 extras may run into the limits
                     if lname == "uf" and tier == "quick" and U == 2:
                         # the union-find lemma is program independent and cheap: forests of depth 2 and 3 need 3 and 4 elements
                         for U2 in (3, 4):
@@ -209,7 +213,7 @@ def main():
     # of them is recorded as undecided (nothing is claimed for it); it does not make the check inconclusive
     def is_limit(r):
         # kernels must be decided; sampled programs (random, repository theories) that run into the limits are listed as undecided
-        return corpus.programs[r["program"]].get("kind") in ("repo", "random") and any(w in r.get("reason", "") for w in ("Timeout", "timeout", "MemoryError", "time limit"))
+        return (corpus.programs[r["program"]].get("kind") in ("repo", "random") or r.get("optional")) and any(w in r.get("reason", "") for w in ("Timeout", "timeout", "MemoryError", "time limit"))
     undecided = [r for r in results if r["status"] == "inconclusive" and is_limit(r)]
     inconclusive = [r for r in results if r["status"] == "inconclusive" and not is_limit(r)]
     failed = [r for r in results if r["status"] == "failed"]
